@@ -10,7 +10,12 @@ def v(path, schema):
         ok = False
         print('INVALID', path, str(e)[:300])
 v('/verif/MANIFEST.json', '/root/.vp/MANIFEST.schema.json')
-for f in sorted(glob.glob('/verif/evidence/*.json')):
-    v(f, '/root/.vp/EVIDENCE.schema.json')
+import os
+for c in json.load(open('/verif/MANIFEST.json'))['checks']:
+    f = '/verif/' + c['evidence_file']
+    if os.path.exists(f):
+        v(f, '/root/.vp/EVIDENCE.schema.json')
+    else:
+        ok = False; print('MISSING', f)
 print('all valid' if ok else 'FAILED')
 sys.exit(0 if ok else 1)
